@@ -92,6 +92,19 @@ InvAllFrames     == st.cur >= Len(st.lines) => (st.cur = Len(st.lines) /\ Len(st
 InvRoundTrip     == \A k \in 1..Len(st.Ps) : RoundTrip(st.Ps[k])
 InvWrapped       == \A k \in 1..Len(st.Ps) : WrappedInside(st.Ps[k])
 InvCell          == \A k \in 1..Len(st.Ps) : HMatrixIsCell(st.Ps[k])
+\* the row-wise (linear) formulation used for large frames gives the verdict of the per-id formulation: on the correct
+\* snapshot, and on snapshots in which two atoms exchanged their types / their positions or one coordinate moved
+ObsOf(k) == Meaning(st.Ps[k]) @@ [exact |-> 1]
+SwapTypes(o) == IF o.n < 2 THEN o ELSE [o EXCEPT !.types = [@ EXCEPT ![1] = o.types[o.n], ![o.n] = o.types[1]]]
+SwapPos(o)   == IF o.n < 2 THEN o ELSE [o EXCEPT !.pos = [@ EXCEPT ![1] = o.pos[o.n], ![o.n] = o.pos[1]]]
+MovePos(o)   == [o EXCEPT !.pos[o.n][1] = @ + 1]
+InvRowwiseAgrees ==
+  \A k \in 1..Len(st.Ps) :
+    LET cur0 == SumSeq([j \in 1..(k - 1) |-> FrameLen(NAtoms(st.Ps[j]))])
+        exp  == Parse(st.lines, cur0, st.ndim).snap
+    IN  /\ NextCur(st.lines, cur0) = Parse(st.lines, cur0, st.ndim).next
+        /\ \A o \in {ObsOf(k), SwapTypes(ObsOf(k)), SwapPos(ObsOf(k)), MovePos(ObsOf(k)), [ObsOf(k) EXCEPT !.ts = @ + 1]} :
+              WhySnapshotRows(o, st.lines, cur0, st.ndim) = WhySnapshot(o, exp)
 CursorAdvances   == [][st'.cur > st.cur /\ Len(st'.out) = Len(st.out) + 1]_vars
 
 Selected == st.id % SAMPLE = SALT % SAMPLE
